@@ -533,6 +533,55 @@ impl World {
                     None => "err:Craft".into(),
                 }
             }
+            "advgce" => {
+                // advgce <i> <tsoff>: member i builds a GroupContextExtensions COMMIT with OpenMLS directly in which the
+                // group-data extension names ITSELF in place of an admin (byte-level swap of one 32-byte admin key),
+                // discards its own pending commit, and publishes the commit like mdk would
+                use openmls::prelude::{Extension, MlsGroup, UnknownExtension};
+                use openmls_basic_credential::SignatureKeyPair;
+                use tls_codec::Serialize as _;
+                let i = u(t[1]) as usize;
+                let own_pk = self.clients[i].keys.public_key();
+                let gid = match self.clients[i].gid.clone() { Some(g) => g, None => return "err:NoGroup".into() };
+                let ts = self.t0 + u(t[2]);
+                let mdk = self.clients[i].mdk.take().unwrap();
+                let r: Option<Event> = with_mdk!(&mdk, |m| (|| {
+                    let storage = m.provider.storage();
+                    let rec = m.get_group(&gid).ok()??;
+                    let mut mg = MlsGroup::load(storage, gid.inner()).ok()??;
+                    let own = mg.own_leaf()?.clone();
+                    let signer = SignatureKeyPair::read(storage, own.signature_key().as_slice(), mg.ciphersuite().signature_algorithm())?;
+                    let sec = mg.export_secret(m.provider.crypto(), "nostr", b"nostr", 32).ok()?;
+                    let victim = rec.admin_pubkeys.iter().find(|pk| **pk != own_pk)?.to_bytes();
+                    let mut extensions = mg.extensions().clone();
+                    let mut swapped = None;
+                    for e in extensions.iter() {
+                        if let Extension::Unknown(ty, UnknownExtension(bytes)) = e {
+                            if let Some(pos) = bytes.windows(32).position(|w| w == victim) {
+                                let mut b = bytes.clone();
+                                b[pos..pos + 32].copy_from_slice(&own_pk.to_bytes());
+                                swapped = Some(Extension::Unknown(*ty, UnknownExtension(b)));
+                            }
+                        }
+                    }
+                    extensions.add_or_replace(swapped?).ok()?;
+                    let (msg, _, _) = mg.update_group_context_extensions(&m.provider, extensions, &signer).ok()?;
+                    let bytes = msg.tls_serialize_detached().ok()?;
+                    let _ = mg.clear_pending_commit(storage);
+                    let keys = Keys::new(nostr::SecretKey::from_slice(&sec).ok()?);
+                    let content = nostr::nips::nip44::encrypt(keys.secret_key(), &keys.public_key, &bytes, nostr::nips::nip44::Version::default()).ok()?;
+                    EventBuilder::new(Kind::MlsGroupMessage, content)
+                        .tag(Tag::custom(TagKind::h(), [hex::encode(rec.nostr_group_id)]))
+                        .custom_created_at(Timestamp::from(ts))
+                        .sign_with_keys(&Keys::generate())
+                        .ok()
+                })());
+                self.clients[i].mdk = Some(mdk);
+                match r {
+                    Some(ev) => self.push_event(ev),
+                    None => "err:Craft".into(),
+                }
+            }
             "advupdate" => {
                 // advupdate <i> <tsoff>: member i builds a stand-alone MLS Update PROPOSAL with OpenMLS directly (the MDK
                 // API never sends one), removes it from its own proposal store again, and publishes it like mdk would
@@ -617,7 +666,7 @@ pub fn main(_args: &[String]) -> i32 {
         };
         // fingerprint of the acting client (second token is the client index for client-directed ops)
         let fp = match t[0] {
-            "client" | "kp" | "create" | "welcome" | "accept" | "decline" | "send" | "selfupdate" | "add" | "remove" | "leave" | "data" | "merge" | "clear" | "deliver" | "restart" | "fp" | "advremove" | "advupdate" => {
+            "client" | "kp" | "create" | "welcome" | "accept" | "decline" | "send" | "selfupdate" | "add" | "remove" | "leave" | "data" | "merge" | "clear" | "deliver" | "restart" | "fp" | "advremove" | "advgce" | "advupdate" => {
                 let ci = u(t[1]) as usize;
                 if ci < world.clients.len() && world.clients[ci].mdk.is_some() {
                     catch_unwind(AssertUnwindSafe(|| world.fingerprint(ci))).unwrap_or_else(|_| "fp-panic".into())
